@@ -479,9 +479,19 @@ D_EXC = dict(exc=True)
 
 
 def _process_child_attrs(cls, retval, kwargs):
-    child_attrs = copy(kwargs.get('child_attrs', None))
+    # these get modified below. don't touch what the caller passed in.
+    child_attrs = kwargs.get('child_attrs', None)
+    if child_attrs is not None:
+        child_attrs = dict((k, dict(v)) for k, v in child_attrs.items())
+
     child_attrs_all = kwargs.get('child_attrs_all', None)
-    child_attrs_noexc = copy(kwargs.get('child_attrs_noexc', None))
+    if child_attrs_all is not None:
+        child_attrs_all = dict(child_attrs_all)
+
+    child_attrs_noexc = kwargs.get('child_attrs_noexc', None)
+    if child_attrs_noexc is not None:
+        child_attrs_noexc = dict((k, dict(v))
+                                          for k, v in child_attrs_noexc.items())
 
     # add exc=False to child_attrs_noexc
     if child_attrs_noexc is not None:
